@@ -10,6 +10,7 @@ import (
 	"os/signal"
 	"syscall"
 
+	"github.com/invopop/gobl/internal/cli"
 	"github.com/spf13/cobra"
 )
 
@@ -68,9 +69,15 @@ func encode(in any, out io.WriteCloser, indent bool) error {
 }
 
 func printError(err error) {
-	enc := json.NewEncoder(os.Stderr)
+	writeError(os.Stderr, err)
+}
+
+// writeError writes the error in the structure used for all the errors of
+// the command line (code, key, fields, message), whatever its origin.
+func writeError(out io.Writer, err error) {
+	enc := json.NewEncoder(out)
 	enc.SetIndent("", "\t") // always indent errors
-	if err = enc.Encode(err); err != nil {
-		_, _ = fmt.Fprintln(os.Stderr, err)
+	if err = enc.Encode(cli.WrapError(err)); err != nil {
+		_, _ = fmt.Fprintln(out, err)
 	}
 }
